@@ -1,4 +1,440 @@
-import BipVerif.Model.Bip32
+/-
+C05 — extended-key serialisation (`xpub`/`xprv` strings): layout, parse∘print = id,
+print∘parse = id (canonicity), complete error split, `FromExtendedKey` facts.
+All statements are for an arbitrary checksum hash `H` with at least 4 output bytes
+(the library's `H` is `sha256d`, 32 bytes).  Helper lemmas: `BipVerif/Lemmas/ExtKey.lean`.
+-/
+import BipVerif.Lemmas.ExtKey
+
 namespace BipVerif.Props.C05
-theorem placeholder : True := trivial
+open BipVerif BipVerif.Model
+
+/-! ### 1. layout -/
+
+/-- the serialiser succeeds exactly when depth fits one byte and the index four. -/
+theorem serializeKey_ok_iff (H : Bytes → Bytes) (ver : Bytes) (depth : Nat) (fp : Bytes) (idx : Nat)
+    (cc key : Bytes) :
+    (∃ s, serializeKey H ver depth fp idx cc key = .ok s) ↔ depth < 256 ∧ idx < 2 ^ 32 := by
+  constructor
+  · rintro ⟨s, hs⟩
+    by_contra hn
+    rw [XK.serializeKey_overflow H ver depth fp idx cc key hn] at hs; cases hs
+  · rintro ⟨hd, hi⟩; exact ⟨_, XK.serializeKey_eq H ver depth fp idx cc key hd hi⟩
+
+/-- … and otherwise raises `OverflowError` (never anything else). -/
+theorem serializeKey_error_iff (H : Bytes → Bytes) (ver : Bytes) (depth : Nat) (fp : Bytes) (idx : Nat)
+    (cc key : Bytes) (e : Err) :
+    serializeKey H ver depth fp idx cc key = .error e ↔ e = .overflow ∧ ¬ (depth < 256 ∧ idx < 2 ^ 32) := by
+  by_cases h : depth < 256 ∧ idx < 2 ^ 32
+  · rw [XK.serializeKey_eq H ver depth fp idx cc key h.1 h.2]
+    constructor
+    · intro he; cases he
+    · rintro ⟨_, hn⟩; exact absurd h hn
+  · rw [XK.serializeKey_overflow H ver depth fp idx cc key h]
+    constructor
+    · intro he; exact ⟨(Except.error.inj he).symm, h⟩
+    · rintro ⟨rfl, _⟩; rfl
+
+/-- **layout**: a produced string Base58Check-decodes to
+`ver ‖ depth(1) ‖ fp(4) ‖ index(4, big endian) ‖ chain code(32) ‖ key` at offsets
+0/4/5/9/13/45, total `45 + key.length` bytes (78 for a 33-byte key). -/
+theorem ser_layout (H : Bytes → Bytes) (hH : ∀ x, (H x).length ≥ 4) (ver : Bytes) (depth : Nat)
+    (fp : Bytes) (idx : Nat) (cc key : Bytes) (s : List Char)
+    (hv : ver.length = 4) (hfp : fp.length = 4) (hcc : cc.length = 32)
+    (h : serializeKey H ver depth fp idx cc key = .ok s) :
+    depth ≤ 255 ∧ idx < 2 ^ 32 ∧
+    ∃ payload : Bytes,
+      payload = ver ++ [UInt8.ofNat depth] ++ fp ++ Bytes.ofNatBE 4 idx ++ cc ++ key ∧
+      b58CheckDecode H btcAlphabet s = .ok payload ∧
+      payload.length = 45 + key.length ∧
+      payload.take 4 = ver ∧
+      payload[4]? = some (UInt8.ofNat depth) ∧
+      (payload.drop 5).take 4 = fp ∧
+      (payload.drop 9).take 4 = Bytes.ofNatBE 4 idx ∧
+      (payload.drop 13).take 32 = cc ∧
+      payload.drop 45 = key := by
+  have hok := (serializeKey_ok_iff H ver depth fp idx cc key).mp ⟨s, h⟩
+  obtain ⟨hd, hi⟩ := hok
+  rw [XK.serializeKey_eq H ver depth fp idx cc key hd hi] at h
+  have hs := (Except.ok.inj h).symm
+  have hi4 := XK.ofNatBE_length 4 idx
+  have hlen := XK.extPayload_length ver (UInt8.ofNat depth) fp (Bytes.ofNatBE 4 idx) cc key hv hfp hi4 hcc
+  refine ⟨by omega, hi, XK.extPayload ver (UInt8.ofNat depth) fp (Bytes.ofNatBE 4 idx) cc key, rfl, ?_,
+    hlen, XK.extPayload_take4 _ _ _ _ _ _ hv, ?_, XK.extPayload_fp _ _ _ _ _ _ hv hfp,
+    XK.extPayload_idx _ _ _ _ _ _ hv hfp hi4, XK.extPayload_cc _ _ _ _ _ _ hv hfp hi4 hcc,
+    XK.extPayload_key _ _ _ _ _ _ hv hfp hi4 hcc⟩
+  · rw [hs]; exact XK.b58CheckDecode_btc_encode H hH _
+  · have := XK.extPayload_get4 ver (UInt8.ofNat depth) fp (Bytes.ofNatBE 4 idx) cc key hv
+    have h4 : 4 < (XK.extPayload ver (UInt8.ofNat depth) fp (Bytes.ofNatBE 4 idx) cc key).length := by
+      rw [hlen]; omega
+    rw [List.getD_eq_getElem?_getD, List.getElem?_eq_getElem h4] at this
+    rw [List.getElem?_eq_getElem h4]
+    exact congrArg some this
+
+/-! ### 2. parse ∘ print = id -/
+
+/-- public keys (33-byte key, 78-byte payload). -/
+theorem deser_ser_pub (H : Bytes → Bytes) (hH : ∀ x, (H x).length ≥ 4) (kv : KeyNetVer)
+    (hpub : kv.pub.length = 4) (depth idx : Nat) (fp cc key : Bytes)
+    (hd : depth ≤ 255) (hi : idx < 2 ^ 32) (hfp : fp.length = 4) (hcc : cc.length = 32)
+    (hkey : key.length = 33) :
+    (serializeKey H kv.pub depth fp idx cc key >>= deserializeKey H kv)
+      = .ok ⟨key, depth, idx, cc, fp, true⟩ := by
+  have hi4 := XK.ofNatBE_length 4 idx
+  rw [XK.serializeKey_eq H kv.pub depth fp idx cc key (by omega) hi]
+  show deserializeKey H kv _ = _
+  rw [XK.deserializeKey_eq, XK.b58CheckDecode_btc_encode H hH]
+  show XK.parsePayload kv _ = _
+  rw [XK.parsePayload_pub kv _ (XK.extPayload_take4 _ _ _ _ _ _ hpub),
+    XK.extPayload_length _ _ _ _ _ _ hpub hfp hi4 hcc, if_pos (by omega),
+    XK.fieldsPub_extPayload _ _ _ _ _ _ hpub hfp hi4 hcc, XK.toNatBE_ofNatBE,
+    UInt8.toNat_ofNat', Nat.mod_eq_of_lt (show depth < 2 ^ 8 by omega),
+    Nat.mod_eq_of_lt (show idx < 256 ^ 4 by norm_num at hi ⊢; exact hi)]
+
+/-- private keys: 32-byte key (78-byte payload) or 64-byte key (110-byte payload), written
+behind a zero pad byte. Needs distinguishable version bytes. -/
+theorem deser_ser_priv (H : Bytes → Bytes) (hH : ∀ x, (H x).length ≥ 4) (kv : KeyNetVer)
+    (hpriv : kv.priv.length = 4) (hne : kv.pub ≠ kv.priv) (depth idx : Nat) (fp cc k : Bytes)
+    (hd : depth ≤ 255) (hi : idx < 2 ^ 32) (hfp : fp.length = 4) (hcc : cc.length = 32)
+    (hk : k.length = 32 ∨ k.length = 64) :
+    (serializeKey H kv.priv depth fp idx cc ([0] ++ k) >>= deserializeKey H kv)
+      = .ok ⟨k, depth, idx, cc, fp, false⟩ := by
+  have hi4 := XK.ofNatBE_length 4 idx
+  rw [XK.serializeKey_eq H kv.priv depth fp idx cc _ (by omega) hi]
+  show deserializeKey H kv _ = _
+  rw [XK.deserializeKey_eq, XK.b58CheckDecode_btc_encode H hH]
+  show XK.parsePayload kv (XK.extPayload _ _ _ _ _ (0 :: k)) = _
+  have ht := XK.extPayload_take4 kv.priv (UInt8.ofNat depth) fp (Bytes.ofNatBE 4 idx) cc (0 :: k) hpriv
+  obtain ⟨hf, hpad⟩ := XK.fieldsPriv_extPayload kv.priv (UInt8.ofNat depth) fp (Bytes.ofNatBE 4 idx) cc 0 k
+    hpriv hfp hi4 hcc
+  rw [XK.parsePayload_priv kv _ (by rw [ht]; exact fun e => hne e.symm) ht,
+    XK.extPayload_length _ _ _ _ _ _ hpriv hfp hi4 hcc,
+    if_pos (by simp only [List.length_cons]; omega), if_pos hpad, hf, XK.toNatBE_ofNatBE,
+    UInt8.toNat_ofNat', Nat.mod_eq_of_lt (show depth < 2 ^ 8 by omega),
+    Nat.mod_eq_of_lt (show idx < 256 ^ 4 by norm_num at hi ⊢; exact hi)]
+
+/-- **parse ∘ print = id**, both key kinds, under the hypotheses of the design document. -/
+theorem deser_ser (H : Bytes → Bytes) (hH : ∀ x, (H x).length ≥ 4) (kv : KeyNetVer)
+    (hpub : kv.pub.length = 4) (hpriv : kv.priv.length = 4) (hne : kv.pub ≠ kv.priv)
+    (depth idx : Nat) (fp cc : Bytes) (hd : depth ≤ 255) (hi : idx < 2 ^ 32)
+    (hfp : fp.length = 4) (hcc : cc.length = 32) :
+    (∀ key : Bytes, key.length = 33 →
+      (serializeKey H kv.pub depth fp idx cc key >>= deserializeKey H kv)
+        = .ok ⟨key, depth, idx, cc, fp, true⟩) ∧
+    (∀ k : Bytes, k.length = 32 ∨ k.length = 64 →
+      (serializeKey H kv.priv depth fp idx cc ([0] ++ k) >>= deserializeKey H kv)
+        = .ok ⟨k, depth, idx, cc, fp, false⟩) :=
+  ⟨fun key hkey => deser_ser_pub H hH kv hpub depth idx fp cc key hd hi hfp hcc hkey,
+   fun k hk => deser_ser_priv H hH kv hpriv hne depth idx fp cc k hd hi hfp hcc hk⟩
+
+/-- `ToExtended` of a node's public key parses back to the node's fields. -/
+theorem toExtendedPub_deser (H : Bytes → Bytes) (hH : ∀ x, (H x).length ≥ 4) (kv : KeyNetVer)
+    (hpub : kv.pub.length = 4) (n : Node) (hd : n.depth ≤ 255) (hi : n.index < 2 ^ 32)
+    (hfp : n.parentFp.length = 4) (hcc : n.chainCode.length = 32) (hkey : n.pub.length = 33) :
+    (n.toExtendedPub H kv >>= deserializeKey H kv)
+      = .ok ⟨n.pub, n.depth, n.index, n.chainCode, n.parentFp, true⟩ :=
+  deser_ser_pub H hH kv hpub n.depth n.index n.parentFp n.chainCode n.pub hd hi hfp hcc hkey
+
+/-- `ToExtended` of a node's private key parses back to the node's fields. -/
+theorem toExtendedPriv_deser (H : Bytes → Bytes) (hH : ∀ x, (H x).length ≥ 4) (kv : KeyNetVer)
+    (hpriv : kv.priv.length = 4) (hne : kv.pub ≠ kv.priv) (n : Node) (k : Bytes)
+    (hpk : n.priv = some k) (hd : n.depth ≤ 255) (hi : n.index < 2 ^ 32)
+    (hfp : n.parentFp.length = 4) (hcc : n.chainCode.length = 32)
+    (hk : k.length = 32 ∨ k.length = 64) :
+    (n.toExtendedPriv H kv >>= deserializeKey H kv)
+      = .ok ⟨k, n.depth, n.index, n.chainCode, n.parentFp, false⟩ := by
+  unfold Node.toExtendedPriv
+  rw [hpk]
+  exact deser_ser_priv H hH kv hpriv hne n.depth n.index n.parentFp n.chainCode k hd hi hfp hcc hk
+
+/-- a public-only node has no extended private key (`Bip32KeyError`). -/
+theorem toExtendedPriv_public_only (H : Bytes → Bytes) (kv : KeyNetVer) (n : Node)
+    (h : n.priv = none) : n.toExtendedPriv H kv = .error .key := by
+  unfold Node.toExtendedPriv; rw [h]; rfl
+
+/-! ### 3. what is accepted, and the complete error split -/
+
+/-- **acceptance**: the string Base58Check-decodes to a payload that starts with the version
+of `d.isPublic`, has 78 bytes (public) or 78/110 bytes (private, pad byte 0 at offset 45), and
+`d` is read off the fixed offsets. -/
+theorem deser_ok_iff (H : Bytes → Bytes) (kv : KeyNetVer) (s : List Char) (d : DeserKey) :
+    deserializeKey H kv s = .ok d ↔
+      ∃ ser, b58CheckDecode H btcAlphabet s = .ok ser ∧
+        ((ser.take 4 = kv.pub ∧ ser.length = 78 ∧
+            d = ⟨ser.drop 45, (ser.getD 4 0).toNat, Bytes.toNatBE ((ser.drop 9).take 4),
+                  (ser.drop 13).take 32, (ser.drop 5).take 4, true⟩) ∨
+         (ser.take 4 ≠ kv.pub ∧ ser.take 4 = kv.priv ∧ (ser.length = 78 ∨ ser.length = 110) ∧
+            ser.getD 45 1 = 0 ∧
+            d = ⟨ser.drop 46, (ser.getD 4 0).toNat, Bytes.toNatBE ((ser.drop 9).take 4),
+                  (ser.drop 13).take 32, (ser.drop 5).take 4, false⟩)) := by
+  rw [XK.deserializeKey_eq]
+  cases hdec : b58CheckDecode H btcAlphabet s with
+  | error e => simp [bind, Except.bind]
+  | ok ser =>
+    show XK.parsePayload kv ser = .ok d ↔ _
+    rw [XK.parsePayload_ok_iff]
+    simp [XK.fieldsPub, XK.fieldsPriv]
+
+/-- the version found in an accepted string matches `isPublic`, and the field widths. -/
+theorem deser_ok_shape (H : Bytes → Bytes) (kv : KeyNetVer) (s : List Char) (d : DeserKey)
+    (h : deserializeKey H kv s = .ok d) :
+    ∃ ser, b58CheckDecode H btcAlphabet s = .ok ser ∧
+      ser.take 4 = (if d.isPublic then kv.pub else kv.priv) ∧
+      (if d.isPublic then ser.length = 78 else (ser.length = 78 ∨ ser.length = 110) ∧ ser[45]? = some 0) ∧
+      d.depth ≤ 255 ∧ d.index < 2 ^ 32 ∧ d.chainCode.length = 32 ∧ d.parentFp.length = 4 ∧
+      d.keyBytes.length = (if d.isPublic then 33 else ser.length - 46) := by
+  obtain ⟨ser, hdec, hcase⟩ := (deser_ok_iff H kv s d).mp h
+  refine ⟨ser, hdec, ?_⟩
+  have hidx : ∀ l : Bytes, l.length = 4 → Bytes.toNatBE l < 2 ^ 32 := by
+    intro l hl; have := XK.toNatBE_lt l; rw [hl] at this; norm_num at this ⊢; exact this
+  rcases hcase with ⟨h1, h2, rfl⟩ | ⟨h0, h1, h2, h3, rfl⟩
+  · refine ⟨h1, h2, ?_, hidx _ (by simp; omega), by simp; omega, by simp; omega, by simp; omega⟩
+    have := (ser.getD 4 0).toNat_lt; simp only; omega
+  · have h45 : 45 < ser.length := by omega
+    refine ⟨h1, ⟨h2, ?_⟩, ?_, hidx _ (by simp; omega), by simp; omega, by simp; omega, by simp⟩
+    · rw [List.getD_eq_getElem?_getD, List.getElem?_eq_getElem h45] at h3
+      rw [List.getElem?_eq_getElem h45]; exact congrArg some h3
+    · have := (ser.getD 4 0).toNat_lt; simp only; omega
+
+/-- **error split**: only `Bip32KeyError`, `ValueError` (Base58 alphabet) or the checksum error
+can escape — in particular no `IndexError`. -/
+theorem deser_error_kinds (H : Bytes → Bytes) (kv : KeyNetVer) (s : List Char) (e : Err)
+    (h : deserializeKey H kv s = .error e) : e = .key ∨ e = .value ∨ e = .checksum := by
+  rw [XK.deserializeKey_eq] at h
+  cases hdec : b58CheckDecode H btcAlphabet s with
+  | error e' =>
+    rw [hdec] at h
+    have : e' = e := Except.error.inj h
+    subst this
+    exact Or.inr (XK.b58CheckDecode_error H btcAlphabet s e' hdec)
+  | ok ser =>
+    rw [hdec] at h
+    exact Or.inl (XK.parsePayload_error kv ser e h)
+
+/-- `ValueError` ⇔ some character is outside the Base58 alphabet. -/
+theorem deser_error_value_iff (H : Bytes → Bytes) (kv : KeyNetVer) (s : List Char) :
+    deserializeKey H kv s = .error .value ↔ ¬ ∀ c ∈ s, c ∈ btcAlphabet := by
+  rw [← XK.b58CheckDecode_value_iff H, XK.deserializeKey_eq]
+  cases hdec : b58CheckDecode H btcAlphabet s with
+  | error e' => simp [bind, Except.bind]
+  | ok ser =>
+    constructor
+    · intro h; have := XK.parsePayload_error kv ser _ h; cases this
+    · intro h; cases h
+
+/-- checksum error ⇔ the string is Base58 but its last four bytes are not the hash prefix. -/
+theorem deser_error_checksum_iff (H : Bytes → Bytes) (kv : KeyNetVer) (s : List Char) :
+    deserializeKey H kv s = .error .checksum ↔
+      ∃ dec, b58Decode btcAlphabet s = .ok dec ∧ takeLast dec 4 ≠ (H (dropLast dec 4)).take 4 := by
+  rw [← XK.b58CheckDecode_checksum_iff H, XK.deserializeKey_eq]
+  cases hdec : b58CheckDecode H btcAlphabet s with
+  | error e' => simp [bind, Except.bind]
+  | ok ser =>
+    constructor
+    · intro h; have := XK.parsePayload_error kv ser _ h; cases this
+    · intro h; cases h
+
+/-- `Bip32KeyError` ⇔ the checksummed payload has an unknown version, a wrong length for its
+version, or (private) a non-zero pad byte. -/
+theorem deser_error_key_iff (H : Bytes → Bytes) (kv : KeyNetVer) (s : List Char) :
+    deserializeKey H kv s = .error .key ↔
+      ∃ ser, b58CheckDecode H btcAlphabet s = .ok ser ∧
+        ((ser.take 4 ≠ kv.pub ∧ ser.take 4 ≠ kv.priv) ∨
+         (ser.take 4 = kv.pub ∧ ser.length ≠ 78) ∨
+         (ser.take 4 ≠ kv.pub ∧ ser.take 4 = kv.priv ∧ ¬ (ser.length = 78 ∨ ser.length = 110)) ∨
+         (ser.take 4 ≠ kv.pub ∧ ser.take 4 = kv.priv ∧ (ser.length = 78 ∨ ser.length = 110) ∧
+            ser.getD 45 1 ≠ 0)) := by
+  rw [XK.deserializeKey_eq]
+  cases hdec : b58CheckDecode H btcAlphabet s with
+  | error e' =>
+    have := XK.b58CheckDecode_error H btcAlphabet s e' hdec
+    rcases this with rfl | rfl <;> simp [bind, Except.bind]
+  | ok ser =>
+    show XK.parsePayload kv ser = .error .key ↔ _
+    rw [XK.parsePayload_key_iff]
+    simp
+
+/-! ### 4. print ∘ parse = id (canonicity) -/
+
+/-- every accepted string is *the* serialisation of what it parses to. -/
+theorem ser_deser (H : Bytes → Bytes) (hH : ∀ x, (H x).length ≥ 4) (kv : KeyNetVer) (s : List Char)
+    (d : DeserKey) (h : deserializeKey H kv s = .ok d) :
+    serializeKey H (if d.isPublic then kv.pub else kv.priv) d.depth d.parentFp d.index d.chainCode
+      (if d.isPublic then d.keyBytes else [0] ++ d.keyBytes) = .ok s := by
+  obtain ⟨ser, hdec, hcase⟩ := (deser_ok_iff H kv s d).mp h
+  have hb58 := (XK.b58CheckDecode_ok_iff H btcAlphabet hH s ser).mp hdec
+  have hcanon : b58CheckEncode H btcAlphabet ser = s :=
+    XK.b58_encode_decode btcAlphabet XK.btcAlphabet_length s _ hb58
+  have hlen : 78 ≤ ser.length := by
+    rcases hcase with ⟨_, h2, _⟩ | ⟨_, _, h2, _⟩ <;> omega
+  have hdepth : (ser.getD 4 0).toNat < 256 := (ser.getD 4 0).toNat_lt
+  have hi4 : ((ser.drop 9).take 4).length = 4 := by simp; omega
+  have hidx : Bytes.toNatBE ((ser.drop 9).take 4) < 2 ^ 32 := by
+    have := XK.toNatBE_lt ((ser.drop 9).take 4); rw [hi4] at this; norm_num at this ⊢; exact this
+  have hre := XK.extPayload_reassemble ser (by omega)
+  have hofnat : Bytes.ofNatBE 4 (Bytes.toNatBE ((ser.drop 9).take 4)) = (ser.drop 9).take 4 := by
+    have := XK.ofNatBE_toNatBE ((ser.drop 9).take 4); rwa [hi4] at this
+  rcases hcase with ⟨h1, _, rfl⟩ | ⟨_, h1, _, h3, rfl⟩
+  · simp only [if_true]
+    rw [XK.serializeKey_eq H _ _ _ _ _ _ hdepth hidx, UInt8.ofNat_toNat, hofnat, ← h1, hre, hcanon]
+  · simp only [Bool.false_eq_true, if_false]
+    have hkey : [0] ++ ser.drop 46 = ser.drop 45 := by
+      have h45 : 45 < ser.length := by omega
+      rw [List.getD_eq_getElem?_getD, List.getElem?_eq_getElem h45] at h3
+      have h3' : ser[45] = 0 := by simpa using h3
+      rw [List.drop_eq_getElem_cons h45, h3']; rfl
+    rw [XK.serializeKey_eq H _ _ _ _ _ _ hdepth hidx, UInt8.ofNat_toNat, hofnat, hkey, ← h1, hre, hcanon]
+
+/-- consequently the parser is injective: two accepted strings with the same parse are equal. -/
+theorem deser_inj (H : Bytes → Bytes) (hH : ∀ x, (H x).length ≥ 4) (kv : KeyNetVer) (s t : List Char)
+    (d : DeserKey) (hs : deserializeKey H kv s = .ok d) (ht : deserializeKey H kv t = .ok d) :
+    s = t := by
+  have h1 := ser_deser H hH kv s d hs
+  have h2 := ser_deser H hH kv t d ht
+  rw [h1] at h2; exact Except.ok.inj h2
+
+/-! ### 5. `FromExtendedKey` -/
+
+/-- a depth-0 (master) key with a non-zero parent fingerprint or index is refused. -/
+theorem fromExtendedKey_depth0 (H : Bytes → Bytes) (c : CurveT) (sch : Scheme) (kv : KeyNetVer)
+    (s : List Char) (d : DeserKey) (h : deserializeKey H kv s = .ok d) (h0 : d.depth = 0)
+    (hbad : d.parentFp ≠ [0,0,0,0] ∨ d.index ≠ 0) :
+    fromExtendedKey H c sch kv s = .error .key := by
+  rw [XK.fromExtendedKey_eq, h]
+  show XK.nodeOfDeser c sch d = _
+  unfold XK.nodeOfDeser
+  rw [if_pos ⟨h0, hbad⟩]
+
+/-- invalid public key bytes are refused with `Bip32KeyError`. -/
+theorem fromExtendedKey_invalid_pub (H : Bytes → Bytes) (c : CurveT) (sch : Scheme) (kv : KeyNetVer)
+    (s : List Char) (d : DeserKey) (h : deserializeKey H kv s = .ok d) (hp : d.isPublic = true)
+    (hbad : pubFromBytes c d.keyBytes = none) :
+    fromExtendedKey H c sch kv s = .error .key := by
+  rw [XK.fromExtendedKey_eq, h]
+  show XK.nodeOfDeser c sch d = _
+  unfold XK.nodeOfDeser
+  by_cases hroot : d.depth = 0 ∧ (d.parentFp ≠ [0,0,0,0] ∨ d.index ≠ 0)
+  · rw [if_pos hroot]
+  · rw [if_neg hroot, if_pos hp, XK.nodeOfPub_eq, hbad]
+
+/-- invalid private key bytes are refused with `Bip32KeyError`. -/
+theorem fromExtendedKey_invalid_priv (H : Bytes → Bytes) (c : CurveT) (sch : Scheme) (kv : KeyNetVer)
+    (s : List Char) (d : DeserKey) (h : deserializeKey H kv s = .ok d) (hp : d.isPublic = false)
+    (hbad : privValid c d.keyBytes = false) :
+    fromExtendedKey H c sch kv s = .error .key := by
+  rw [XK.fromExtendedKey_eq, h]
+  show XK.nodeOfDeser c sch d = _
+  unfold XK.nodeOfDeser
+  by_cases hroot : d.depth = 0 ∧ (d.parentFp ≠ [0,0,0,0] ∨ d.index ≠ 0)
+  · rw [if_pos hroot]
+  · rw [if_neg hroot, if_neg (by simp [hp]), XK.nodeOfPriv_eq, if_pos hbad]
+
+/-- on success the node carries exactly the parsed fields, the key was valid, and a depth-0
+key had zero fingerprint and index. -/
+theorem fromExtendedKey_ok (H : Bytes → Bytes) (c : CurveT) (sch : Scheme) (kv : KeyNetVer)
+    (s : List Char) (n : Node) (h : fromExtendedKey H c sch kv s = .ok n) :
+    ∃ d, deserializeKey H kv s = .ok d ∧
+      n.depth = d.depth ∧ n.index = d.index ∧ n.chainCode = d.chainCode ∧ n.parentFp = d.parentFp ∧
+      n.curve = c ∧ n.scheme = sch ∧
+      (d.depth = 0 → d.parentFp = [0,0,0,0] ∧ d.index = 0) ∧
+      (if d.isPublic then n.priv = none ∧ pubFromBytes c d.keyBytes = some n.pub
+       else n.priv = some d.keyBytes ∧ privValid c d.keyBytes = true ∧
+            pubOfPriv c d.keyBytes = some n.pub) := by
+  rw [XK.fromExtendedKey_eq] at h
+  cases hd : deserializeKey H kv s with
+  | error e => rw [hd] at h; cases h
+  | ok d =>
+    rw [hd] at h
+    replace h : XK.nodeOfDeser c sch d = .ok n := h
+    obtain ⟨ser, _, _, _, _, _, _, hfp, _⟩ := deser_ok_shape H kv s d hd
+    have hfp4 : d.parentFp.take 4 = d.parentFp := List.take_of_length_le (by omega)
+    refine ⟨d, rfl, ?_⟩
+    unfold XK.nodeOfDeser at h
+    split at h
+    · cases h
+    · rename_i hroot
+      have hroot' : d.depth = 0 → d.parentFp = [0,0,0,0] ∧ d.index = 0 := by
+        intro h0
+        by_contra hc
+        apply hroot
+        refine ⟨h0, ?_⟩
+        by_cases h1 : d.parentFp = [0,0,0,0]
+        · right; intro h2; exact hc ⟨h1, h2⟩
+        · left; exact h1
+      cases hp : d.isPublic
+      · rw [hp, if_neg (by simp), XK.nodeOfPriv_eq] at h
+        split at h
+        · cases h
+        · rename_i hv
+          cases hpub : pubOfPriv c d.keyBytes with
+          | none => rw [hpub] at h; cases h
+          | some pub =>
+            rw [hpub] at h
+            cases h
+            refine ⟨rfl, rfl, rfl, hfp4, rfl, rfl, hroot', ?_⟩
+            rw [if_neg (by simp)]
+            exact ⟨rfl, by simpa using hv, rfl⟩
+      · rw [hp, if_pos rfl, XK.nodeOfPub_eq] at h
+        cases hpub : pubFromBytes c d.keyBytes with
+        | none => rw [hpub] at h; cases h
+        | some pub =>
+          rw [hpub] at h
+          cases h
+          refine ⟨rfl, rfl, rfl, hfp4, rfl, rfl, hroot', ?_⟩
+          rw [if_pos rfl]
+          exact ⟨rfl, rfl⟩
+
+/-- error kinds of `FromExtendedKey`: those of the parser, plus the third-party exception of a
+degenerate (identity) Kholaw/Monero public key. -/
+theorem fromExtendedKey_error_kinds (H : Bytes → Bytes) (c : CurveT) (sch : Scheme) (kv : KeyNetVer)
+    (s : List Char) (e : Err) (h : fromExtendedKey H c sch kv s = .error e) :
+    e = .key ∨ e = .value ∨ e = .checksum ∨ e = .thirdParty := by
+  rw [XK.fromExtendedKey_eq] at h
+  cases hd : deserializeKey H kv s with
+  | error e' =>
+    rw [hd] at h
+    have : e' = e := Except.error.inj h
+    subst this
+    rcases deser_error_kinds H kv s e' hd with h | h | h <;> simp [h]
+  | ok d =>
+    rw [hd] at h
+    replace h : XK.nodeOfDeser c sch d = .error e := h
+    unfold XK.nodeOfDeser at h
+    split at h
+    · exact Or.inl (Except.error.inj h).symm
+    · split at h
+      · rw [XK.nodeOfPub_eq] at h
+        split at h
+        · cases h
+        · exact Or.inl (Except.error.inj h).symm
+      · rw [XK.nodeOfPriv_eq] at h
+        split at h
+        · exact Or.inl (Except.error.inj h).symm
+        · split at h
+          · cases h
+          · exact Or.inr (Or.inr (Or.inr (Except.error.inj h).symm))
+
+/-! ### the library's instance: `H` = double SHA-256 -/
+
+theorem sha256d_ge4 : ∀ x, (Prim.sha256d x).length ≥ 4 := by
+  intro x; rw [Prim.sha256d_length]; omega
+
+theorem deser_ser_sha256d (kv : KeyNetVer)
+    (hpub : kv.pub.length = 4) (hpriv : kv.priv.length = 4) (hne : kv.pub ≠ kv.priv)
+    (depth idx : Nat) (fp cc : Bytes) (hd : depth ≤ 255) (hi : idx < 2 ^ 32)
+    (hfp : fp.length = 4) (hcc : cc.length = 32) :
+    (∀ key : Bytes, key.length = 33 →
+      (serializeKey Prim.sha256d kv.pub depth fp idx cc key >>= deserializeKey Prim.sha256d kv)
+        = .ok ⟨key, depth, idx, cc, fp, true⟩) ∧
+    (∀ k : Bytes, k.length = 32 ∨ k.length = 64 →
+      (serializeKey Prim.sha256d kv.priv depth fp idx cc ([0] ++ k) >>= deserializeKey Prim.sha256d kv)
+        = .ok ⟨k, depth, idx, cc, fp, false⟩) :=
+  deser_ser Prim.sha256d sha256d_ge4 kv hpub hpriv hne depth idx fp cc hd hi hfp hcc
+
+theorem ser_deser_sha256d (kv : KeyNetVer) (s : List Char) (d : DeserKey)
+    (h : deserializeKey Prim.sha256d kv s = .ok d) :
+    serializeKey Prim.sha256d (if d.isPublic then kv.pub else kv.priv) d.depth d.parentFp d.index
+      d.chainCode (if d.isPublic then d.keyBytes else [0] ++ d.keyBytes) = .ok s :=
+  ser_deser Prim.sha256d sha256d_ge4 kv s d h
+
 end BipVerif.Props.C05
